@@ -829,18 +829,25 @@ func c01pump(c *an.Ctx) {
 		return
 	}
 	// allowed drop: the sample-rate branch = an If whose condition compares a math/rand result
-	allowed := func(e an.Edge) bool {
-		ifi, ok := e.From.Instrs[len(e.From.Instrs)-1].(*ssa.If)
-		if !ok || e.From.Succs[0] != e.To {
-			return false
-		}
-		b, ok := ifi.Cond.(*ssa.BinOp)
-		if !ok {
-			return false
-		}
-		for _, op := range []ssa.Value{b.X, b.Y} {
-			if call, ok := an.Strip(op).(*ssa.Call); ok {
+	allowed := func(e an.Edge, ps *an.PathState) bool {
+		isRand := func(v ssa.Value) bool {
+			if call, ok := an.Strip(v).(*ssa.Call); ok {
 				if f := an.StaticCallee(call); f != nil && f.Pkg != nil && f.Pkg.Pkg.Path() == "math/rand" {
+					return true
+				}
+			}
+			return false
+		}
+		if ifi, ok := e.From.Instrs[len(e.From.Instrs)-1].(*ssa.If); ok && e.From.Succs[0] == e.To {
+			if b, ok := ifi.Cond.(*ssa.BinOp); ok && (isRand(b.X) || isRand(b.Y)) {
+				return true
+			}
+		}
+		// the comparison may sit behind a merged boolean (`sampleRate > 0 && rand.Int31n(100) > sampleRate` computed
+		// by a predicate): what is known on the edge says the same
+		if ps != nil && len(e.From.Succs) == 2 && e.From.Succs[0] == e.To {
+			for _, cmp := range ps.CmpsOnEdge(e) {
+				if isRand(cmp.X) || isRand(cmp.Y) {
 					return true
 				}
 			}
@@ -863,7 +870,7 @@ func c01pump(c *an.Ctx) {
 		}
 		if pt, ok := el.(*types.Pointer); ok && types.Identical(pt.Elem(), msgT) {
 			q := &an.PathQ{Fn: fn, StartEdges: st.Chosen, Tracked: []ssa.Value{st.Recv}, SinkEdge: sinkEdge, Sink: an.IsReturn, Cut: cutStart,
-				CutEdge: func(e an.Edge, _ *an.PathState) bool { return allowed(e) }}
+				CutEdge: func(e an.Edge, ps *an.PathState) bool { return allowed(e, ps) }}
 			w, f := q.Find()
 			construct := sprintf("recv #%d *Message %s registered in flight", st.Idx, name)
 			if f {
@@ -895,7 +902,7 @@ func c01pump(c *an.Ctx) {
 					continue
 				}
 				q := &an.PathQ{Fn: fn, StartEdges: succ, Tracked: []ssa.Value{m[0]}, SinkEdge: sinkEdge, Sink: an.IsReturn, Cut: cutStart,
-					CutEdge: func(e an.Edge, _ *an.PathState) bool { return allowed(e) }}
+					CutEdge: func(e an.Edge, ps *an.PathState) bool { return allowed(e, ps) }}
 				w, f := q.Find()
 				if f {
 					c.Bad(fn, "decoded record registered in flight", dc.Pos(), "a message decoded from the backend queue can reach the next iteration without StartInFlightTimeout", w)
